@@ -31,6 +31,7 @@ structure Mgr where
 inductive Err where
   | exception        -- `Exception(...)` raised by the manager / `Ineq.getrobdd`
   | keyError         -- `ttable[x.v]` for a literal that was never registered through `newvar`
+  | indexError       -- `arr[word]` in `solve()` for a solver literal beyond the variable table
   | fuel
   deriving DecidableEq, Repr
 
@@ -124,10 +125,13 @@ def Mgr.litInt (m : Mgr) (x : Lit) : Except Err Int :=
 def Mgr.cnf (m : Mgr) : Except Err (List (List Int)) :=
   m.clauses.mapM fun c => c.mapM m.litInt
 
-/-- `arr` after the loop over `get_model()` -/
-def fillArr : List Int → List Int → List Int
-  | arr, [] => arr
-  | arr, w :: r => if w < 0 then fillArr (arr.set (-w).toNat 0) r else fillArr (arr.set w.toNat 1) r
+/-- `arr` after the loop over `get_model()`; `none` = `IndexError` (a literal whose variable number is not below
+    `tcount`; for a negative literal Python indexes with `-word`, for the others with `word`) -/
+def fillArr : List Int → List Int → Option (List Int)
+  | arr, [] => some arr
+  | arr, w :: r =>
+    if w < 0 then (if (-w).toNat < arr.length then fillArr (arr.set (-w).toNat 0) r else none)
+    else (if w.toNat < arr.length then fillArr (arr.set w.toNat 1) r else none)
 
 /-- `model[v] = x` on the dictionary `self.model` -/
 def setModel : List (Var × Int) → Var → Int → List (Var × Int)
@@ -152,8 +156,9 @@ def Mgr.solve (m : Mgr) (ans : Option (List Int)) : Except Err (Bool × Mgr) :=
     match ans with
     | none => .ok (false, m)
     | some mod =>
-      let arr := fillArr (List.replicate (m.vars.length + 1) 0) mod
-      .ok (true, { m with model := storeModel arr m.vars 1 m.model })
+      match fillArr (List.replicate (m.vars.length + 1) 0) mod with
+      | none => .error .indexError
+      | some arr => .ok (true, { m with model := storeModel arr m.vars 1 m.model })
 
 /-- `value(lit)` -/
 def Mgr.value (m : Mgr) (l : Lit) : Option Int :=
